@@ -241,8 +241,10 @@ def main(argv=None):
     # bounded scenario stand-ins (real objects, generated event sequences, oracles from the property statement)
     for scen, n, what in SCENARIO_UNITS.get(prop, []):
         nn = n * (1 if tier == 'quick' or n == 1 else 10)
-        r = native(dict(mode='scenario', scenario=scen, n=nn, seed=seed), timeout=900)
-        bounded_units.append(dict(unit='scenario:' + scen, bound='%d generated event sequences of length <= 14 (seed %d)' % (nn, seed),
+        r = native(dict(mode='scenario', scenario=scen, n=nn, seed=seed, prop=prop), timeout=900)
+        bound = ('exhaustive enumeration of every event sequence within the stated limits of the scenario (%d sequences)' % r.get('tried', 0)
+                 if r.get('exhaustive') else '%d generated event sequences of length <= 14 (seed %d)' % (nn, seed))
+        bounded_units.append(dict(unit='scenario:' + scen, bound=bound,
                                   evaluations=r.get('tried', 0), distinct=r.get('distinct', 0), reason=what))
         if r.get('harness_error'):
             errors.append('scenario stand-in %s failed to run: %s' % (scen, r['harness_error'][-400:]))
